@@ -8,6 +8,10 @@ NOTES = {
     "C06-3B": "a copy sharing its constraint lists is not observable through one logical-constraint call (C06's domain); "
               "caught by C19 (copy independence) and C14 (copy_not_independent)",
     "C08-3A": "needs the caller to mutate the constraint object after passing it; C19's clause, caught by C19",
+    "C02-4B": "outside C02's statement (the recorded constraint aliases the caller's PUBO/PCBO object; shows only when the caller edits it "
+              "afterwards); C19's clause, caught by C19",
+    "C08-4A": "the same aliasing as C02-4B seen through the README pipeline (the caller re-uses and edits the expression to build a second "
+              "model); C19's clause, caught by C19",
     "C14-3B": "set_mapping keeping the caller's dict: set_mapping is not one of C14's edits; it is C19's aliasing clause, caught by C19",
     "C09-3A": "NOT caught, deliberately (same ambiguity as C09-2A): assigning 0 to a new label registers it as a reported "
               "variable; bookkeeping stays a consistent upper bound (C14 holds) and the solver returns assignments over the "
